@@ -234,7 +234,7 @@ class ProgGen:
             choices += ["index", "index"]
         if "core" in self.features:
             # the fragment of Model/BitSem.lean
-            choices = ["if", "block"] + (["cmp", "cmp", "eq", "logic", "logic", "not", "castbool"] if k == "bool" else ["arith", "arith", "arith", "cast", "shift"] + (["unary"] if signed(ty) else []))
+            choices = ["if", "block"] + (["match"] if "match" in self.features else []) + (["cmp", "cmp", "eq", "logic", "logic", "not", "castbool"] if k == "bool" else ["arith", "arith", "arith", "cast", "shift"] + (["unary"] if signed(ty) else []))
         elif k == "bool":
             choices += ["cmp", "cmp", "eq", "logic", "logic", "not", "castbool"]
         elif k == "int":
@@ -575,8 +575,47 @@ class ProgGen:
                 if "loops" in self.features:
                     choices += ["for", "for"]
         c = self.rng.choice(choices)
+        if "assign" in self.features and "core" not in self.features and not pure and self.rng.random() < 0.06:
+            c = "nestedassign"
         self.note("stmt:" + c)
         return getattr(self, "s_" + c)(d, pure, muts)
+
+    def s_nestedassign(self, d, pure, muts):
+        """`g[i][j] = v` on an array of arrays: the bounds of `g[i]` are checked before `j` is evaluated, so with `i`
+        out of bounds a failure inside `j` is not the first failing operation"""
+        def nested(t):
+            return t["k"] == "array" and t["n"] > 0 and t["elem"]["k"] == "array" and t["elem"]["n"] > 0
+        cands = [v for v in muts if nested(v["ty"])]
+        pre = None
+        if cands and self.rng.random() < 0.7:
+            v = self.rng.choice(cands)
+            name, ty = v["name"], v["ty"]
+        else:
+            ety = self.small_ty(0)
+            ty = {"k": "array", "elem": {"k": "array", "elem": ety, "n": self.rng.choice([1, 2, 3])}, "n": self.rng.choice([1, 2, 3])}
+            name = self.fresh("m")
+            init = self.expr(ty, 1, True)
+            pre = (f"let mut {name} = {init.text};", ["letmut", name, init.ast])
+        n, m = ty["n"], ty["elem"]["n"]
+        r = self.rng.random()
+        if r < 0.5:
+            i = self.val_expr(USIZE, n + self.rng.choice([0, 1, 5]))
+        elif r < 0.75:
+            i = self.binop("%", USIZE, self.expr(USIZE, d - 1, True), self.val_expr(USIZE, n + 1))
+        else:
+            i = self.val_expr(USIZE, self.rng.randrange(n))
+        r = self.rng.random()
+        if r < 0.6:
+            j = self.failing_usize(d)
+        elif r < 0.8:
+            j = self.binop("%", USIZE, self.expr(USIZE, d - 1, True), self.val_expr(USIZE, m))
+        else:
+            j = self.val_expr(USIZE, self.rng.randrange(m + 1))
+        e = self.expr(ty["elem"]["elem"], d - 1, True)
+        text, ast = f"{name}[{i.text}][{j.text}] = {e.text};", ["assign", name, [["i", i.ast], ["i", j.ast]], e.ast]
+        if pre is None:
+            return text, ast
+        return "{ " + pre[0] + " " + text + " }", ["expr", ["block", [pre[1], ast]]]
 
     def s_let(self, d, pure, muts):
         ty = self.small_ty(self.rng.choice([0, 1, 1, 2]))
@@ -591,6 +630,13 @@ class ProgGen:
 
     def s_letmut(self, d, pure, muts):
         ty = self.small_ty(self.rng.choice([0, 1, 1, 2]))
+        if "core" not in self.features and "assign" in self.features and self.rng.random() < 0.08:
+            # nested arrays: places with two index accessors (`m[i][j] = v`, `m[i].0[j] = v`)
+            inner = {"k": "array", "elem": self.small_ty(0), "n": self.rng.choice([1, 2, 3])}
+            if self.rng.random() < 0.3:
+                inner = {"k": "tuple", "ts": [inner, self.small_ty(0)]}
+            ty = {"k": "array", "elem": inner, "n": self.rng.choice([1, 2, 3])}
+            self.note("letmut-nested-array")
         ann = f": {T.ty_str(ty)}" if self.rng.random() < 0.3 else ""
         e = self.ctx_expr(ty, d, pure) if ann else self.expr(ty, d, pure)
         x = self.fresh("m")
@@ -607,14 +653,21 @@ class ProgGen:
     def target(self, v, d):
         """an assignable place inside variable v: (text, path ast, type)"""
         text, path, ty = v["name"], [], v["ty"]
-        while self.rng.random() < 0.6:
+        oob = False
+        while self.rng.random() < (0.9 if oob else 0.6):
             k = ty["k"]
             if k == "array" and ty["n"] > 0:
                 r = self.rng.random()
-                if r < 0.7:
+                if oob and r < 0.75 or r > 0.95:
+                    # an index expression that fails itself; after an index that is out of bounds the access to the
+                    # outer array is the first failing operation (its bounds are checked before the next index runs)
+                    i = self.failing_usize(d)
+                    self.note("assign-index-fails" + ("-after-oob" if oob else ""))
+                elif r < 0.7:
                     i = self.val_expr(USIZE, self.rng.randrange(ty["n"]))
                 elif r < 0.8:
                     i = self.val_expr(USIZE, ty["n"] + self.rng.choice([0, 2]))
+                    oob = True
                 else:
                     i = self.binop("%", USIZE, self.expr(USIZE, d - 1, True), self.val_expr(USIZE, ty["n"]))
                 text += f"[{i.text}]"
@@ -633,6 +686,25 @@ class ProgGen:
             else:
                 break
         return text, path, ty
+
+    def failing_usize(self, d):
+        """a usize expression that fails (or is likely to) when it is evaluated"""
+        lo, hi = T.int_range("usize")
+        a = self.expr(USIZE, max(0, d - 1), True)
+        r = self.rng.random()
+        if r < 0.3:
+            return self.binop("+", USIZE, self.val_expr(USIZE, hi), self.binop("+", USIZE, a, self.val_expr(USIZE, 1)))
+        if r < 0.5:
+            return self.binop("-", USIZE, self.val_expr(USIZE, 0), self.val_expr(USIZE, 1))
+        if r < 0.7:
+            return self.binop(self.rng.choice(["/", "%"]), USIZE, a, self.val_expr(USIZE, 0))
+        if r < 0.85:
+            return self.binop("<<", USIZE, a, self.val_expr(U8, T.INTS["usize"][1]))
+        arrs = [(e, t) for e, t in self.components(1) if t["k"] == "array" and t["elem"] == USIZE and t["n"] > 0]
+        if arrs:
+            e, t = self.rng.choice(arrs)
+            return E(f"{e.at(13)}[{t['n']}usize]", ["index", e.ast, ["int", t["n"], "usize"]], 13)
+        return self.binop("*", USIZE, self.val_expr(USIZE, hi), self.val_expr(USIZE, 2))
 
     def s_assign(self, d, pure, muts):
         v = self.rng.choice(muts)
